@@ -38,6 +38,7 @@ def parseOp (s : String) : Option Op :=
   | ["restart", j] => do pure (.restart (← j.toNat?))
   | ["clean", j, g] => do pure (.clean (← j.toNat?) (g == "1"))
   | ["join", j, via, r, ps] => do pure (.join (← j.toNat?) (← via.toNat?) (← parseRes r) (← parsePinset ps))
+  | ["padd", j, via, r, ps] => do pure (.join (← j.toNat?) (← via.toNat?) (← parseRes r) (← parsePinset ps))
   | ["prm", i, p, r, cs] => do pure (.peerRm (← i.toNat?) (← p.toNat?) (← parseRes r) (← parseCalls cs))
   | ["leave", j, r] => do pure (.leave (← j.toNat?) (← parseRes r))
   | _ => none
